@@ -54,6 +54,20 @@ for p in props:
                 f"{len(known) or '-'} | {seed or '-'} | {seed2 or '-'} | {seed3 or '-'} | {seed4 or '-'} | {seed5 or '-'} | notes/{pid}.md |")
 table = ("| id | status | obligations (last run) | cases (last run) | `fix:` commits in /repo | known findings | seeded change, round 1 | seeded change, round 2 | seeded change, round 3 | seeded change, round 4 | seeded change, round 5 | details |\n"
          "|----|--------|------------------------|------------------|--------------------------|----------------|-----------------------|-----------------------|-----------------------|-----------------------|-----------------------|---------|\n" + "\n".join(rows))
+# composition (soft) modules: state in the last run of their host check
+comp = []
+for p in props:
+    f = HERE / "evidence" / f"{p['id']}.json"
+    try:
+        cov = json.loads(f.read_text()).get("coverage", {})
+    except Exception:
+        continue
+    for m in cov.get("composition_modules", []):
+        comp.append(f"`{m}` (hosted by {p['id']}): builds, audited, counted")
+    for m in cov.get("soft_modules_failed", []):
+        comp.append(f"`{m}` (hosted by {p['id']}): **did not build in the last run — its theorems are currently unchecked** (a note, not an alarm; see notes/System.md)")
+if comp:
+    table += "\n\nComposition modules in the last run: " + "; ".join(comp) + "."
 d = (HERE / "DESIGN.md").read_text()
 a, b = "<!-- AS-BUILT:BEGIN -->", "<!-- AS-BUILT:END -->"
 if a in d:
